@@ -377,3 +377,20 @@ func (e *Engine) raceFinish(id string) {
 	}
 	e.race.events = nil
 }
+
+// raceAccessMap logs a map operation as an access to the map as a whole:
+// lookups, len and iteration read it, insertion and deletion write it (Go
+// maps are not safe for concurrent use when one side writes).
+func (e *Engine) raceAccessMap(m *MapObj, write bool, pos token.Pos) {
+	if !e.raceOn() || m == nil {
+		return
+	}
+	if m.hdr == nil {
+		m.hdr = &Cell{v: e.tt.Const(8, 0)}
+	}
+	k := byte('r')
+	if write {
+		k = 'w'
+	}
+	e.raceAdd(k, m.hdr, pos, false, 0)
+}
